@@ -18,8 +18,20 @@ def load(prop_id: str):
 
 
 def known_findings():
+    """Committed list of genuine defects: /verif/known_findings.json plus one file per property under /verif/findings/.
+
+    Entry: {property, key, status: "known"|"fixed", subcheck, what, recipe[, commit][, feature, error_regex]}.
+    Never written at run time."""
+    out = []
     path = os.path.join(env.VERIF, "known_findings.json")
-    if not os.path.exists(path):
-        return []
-    with open(path) as f:
-        return json.load(f)["findings"]
+    if os.path.exists(path):
+        with open(path) as f:
+            out += json.load(f)["findings"]
+    d = os.path.join(env.VERIF, "findings")
+    if os.path.isdir(d):
+        for name in sorted(os.listdir(d)):
+            if name.endswith(".json"):
+                with open(os.path.join(d, name)) as f:
+                    doc = json.load(f)
+                out += doc["findings"] if isinstance(doc, dict) else doc
+    return out
